@@ -23,7 +23,8 @@ from vlib.tol import close, describe, maxdiff
 from menpo.image import Image, MaskedImage, BooleanImage
 from menpo.shape import PointCloud, TriMesh
 import menpo.transform as mt
-from menpo.transform.piecewiseaffine.base import CachedPWA, PythonPWA
+from menpo.transform.piecewiseaffine.base import CachedPWA, PythonPWA, TriangleContainmentError
+from menpo.transform import rbf
 
 PROPERTY = "C01"
 RULE = (
@@ -216,7 +217,10 @@ def s_case(draw, ops=None):
     c["ctrl_noise"] = draw(st.lists(st.lists(gen.q(-0.6, 0.6, 64), min_size=2, max_size=2), min_size=4 + nint, max_size=4 + nint))
     c["pwa_cls"] = draw(st.sampled_from(["CachedPWA", "PythonPWA", "PiecewiseAffine"]))
     c["rbf"] = draw(st.sampled_from([None, "R2LogR2RBF", "R2LogRRBF"]))
-    c["bary"] = draw(objs.bary_picks(1, 5))
+    nb = draw(st.integers(1, 5))
+    c["bary"] = draw(objs.bary_picks(nb, nb))
+    c["bary2"] = draw(objs.bary_picks(nb, nb))  # a second group of the SAME size (same-shape arrays through one warp object)
+    c["batch"] = draw(st.sampled_from([None, None, 1, 7, 64, 257]))
     return c
 
 
@@ -681,7 +685,8 @@ def c_case(c, ctx):
             t = mt.TransformChain([mt.Translation(-tc), mt.Affine(rest)])
         else:
             t = mt.Affine(h)
-        kw = dict(transform=t, warp_landmarks=True, mode=c["mode"])
+        kw = dict(transform=t, warp_landmarks=True, mode=c["mode"], batch_size=c.get("batch"))
+        ctx.event("batch_size=%s" % c.get("batch"))
         if c["cls"] != "BooleanImage":
             kw["order"] = order
         if op == "warp_mask_affine":
@@ -711,8 +716,6 @@ def c_case(c, ctx):
         noise[:4] = 0  # keep the outer box exactly affine so the hull stays inside the image
         tgt = tgt + noise
         if op == "warp_tps":
-            from menpo.transform import rbf
-
             kern = getattr(rbf, c["rbf"])(ctrl) if c["rbf"] else None
             t = mt.ThinPlateSplines(PointCloud(ctrl), PointCloud(tgt), kernel=kern)
         else:
@@ -726,13 +729,32 @@ def c_case(c, ctx):
         else:
             tl = t.trilist
             src.landmarks["in_tris"] = PointCloud(objs.bary_points(tgt, tl, c["bary"]))
+            src.landmarks["in_tris2"] = PointCloud(objs.bary_points(tgt, tl, c.get("bary2", c["bary"])))
         before = digest.digest(src)
         tdig = digest.digest((t.source.points, t.target.points))
-        kw = dict(transform=t, warp_landmarks=True, mode=c["mode"])
+        kw = dict(transform=t, warp_landmarks=True, mode=c["mode"], batch_size=c.get("batch"))
+        ctx.event("batch_size=%s" % c.get("batch"))
         if c["cls"] != "BooleanImage":
             kw["order"] = order
-        fn = lambda p: t.apply(np.asarray(p, dtype=float))  # noqa: E731 - the warp itself is an input of the op
-        inv_t = t.pseudoinverse()
+        # the warp itself is an input of the op; the reference evaluates a SEPARATE, cache-free instance of it
+        if op == "warp_tps":
+            t_ref = mt.ThinPlateSplines(PointCloud(ctrl), PointCloud(tgt), kernel=(getattr(rbf, c["rbf"])(ctrl) if c["rbf"] else None))
+        else:
+            t_ref = PythonPWA(PointCloud(ctrl), PointCloud(tgt))
+        def fn(p):
+            # reference evaluation; points outside the warp's domain (only interpolation corners just outside the
+            # template box can be) evaluate to NaN and are thereby excluded from every "inside the source" filter
+            p = np.asarray(p, dtype=float)
+            try:
+                return t_ref.apply(p)
+            except TriangleContainmentError as e:
+                out = np.full(p.shape, np.nan)
+                good = ~np.asarray(e.points_outside_source_domain, dtype=bool)
+                if good.any():
+                    out[good] = t_ref.apply(p[good])
+                return out
+
+        inv_t = t_ref.pseudoinverse()
         inv = lambda x: inv_t.apply(np.asarray(x, dtype=float))  # noqa: E731
         ref = Ref([{int(s)} for s in tshape], fn=fn, inv=inv, mode=c["mode"], order=order)
         if op == "warp_mask_pwa":
